@@ -2,7 +2,7 @@
 from vlib import boot
 from vlib.sim.core import Sim, Mcu
 from vlib.sim.radio import Chip, Medium
-from vlib.sim.shims import make_spidev_radio, make_bus_radio
+from vlib.sim.shims import make_spidev_radio, make_bus_radio, SharedSimSpiDev, SimPin
 
 
 def mk_radio(kind, chip):
@@ -21,7 +21,7 @@ def mk_radio(kind, chip):
 class Link:
     """two chips on one medium, a driver object on each"""
 
-    def __init__(self, tx_kind="full", rx_kind="full", mcu=None, plus=True, warm=None):
+    def __init__(self, tx_kind="full", rx_kind="full", mcu=None, plus=True, warm=None, shared_spi=False):
         self.sim = Sim(mcu=Mcu.from_dict(mcu) if mcu else None)
         self.med = Medium(self.sim)
         self.T = Chip(self.sim, self.med, "T", plus=plus)
@@ -30,8 +30,15 @@ class Link:
             # both MCUs were reset while the radios kept their supply (another program's configuration, FIFO contents, flags)
             self.T.warm_start(warm)
             self.R.warm_start(warm + 1)
-        self.tx = mk_radio(tx_kind, self.T)
-        self.rx = mk_radio(rx_kind, self.R)
+        if shared_spi and tx_kind == "full" and rx_kind == "full":
+            # both radios hang on one host: one spidev.SpiDev object, chip selects 0 and 1 (the documented two-radio set-up)
+            host = SharedSimSpiDev({(0, 0): self.T, (0, 1): self.R})
+            L = boot.lib()
+            self.tx = L.RF24(host, 0, SimPin(self.T, "ce"))
+            self.rx = L.RF24(host, 1, SimPin(self.R, "ce"))
+        else:
+            self.tx = mk_radio(tx_kind, self.T)
+            self.rx = mk_radio(rx_kind, self.R)
         self.tx_kind, self.rx_kind = tx_kind, rx_kind
 
 
@@ -81,6 +88,8 @@ def with_plus(part):
     def mark(c, nonplus, warm=None):
         if warm is not None and "warm" not in c:
             c = dict(c, warm=warm)
+            if warm % 2 and "shared_spi" not in c and c.get("drv", "full") == "full" and c.get("peer", "full") == "full":
+                c["shared_spi"] = True
         if not nonplus or "plus" in c or c.get("drv", "full") == "lite" or c.get("peer", "full") == "lite":
             return c
         return dict(c, plus=False)
